@@ -4,7 +4,8 @@ from sa import cfg
 from sa.cfg import BranchFacts
 from sa.flow import arg_nodes
 
-UNITS = ["lib/BuildSystem/BuildSystem.cpp", "lib/BuildSystem/ExternalCommand.cpp", "lib/BuildSystem/BuildNode.cpp", "lib/BuildSystem/ShellCommand.cpp", "lib/BuildSystem/BuildFile.cpp"]
+UNITS = ["lib/BuildSystem/BuildSystem.cpp", "lib/BuildSystem/ExternalCommand.cpp", "lib/BuildSystem/BuildNode.cpp", "lib/BuildSystem/ShellCommand.cpp", "lib/BuildSystem/BuildFile.cpp",
+         "lib/Core/MakefileDepsParser.cpp", "lib/Core/DependencyInfoParser.cpp", "lib/Core/BuildEngine.cpp"]
 THOROUGH_ALL_UNITS = False
 EXPLANATION = (
     "lookupRule has a case for every build-key kind, and every rule it creates pairs the task class with that class's own "
@@ -216,17 +217,40 @@ def r_callbacks_reusable(prog, rep):
         raise AnalysisBroken("R-CALLBACKS-REUSABLE: only %d rule callbacks found" % n)
 
 
+def r_task_ctor_params(prog, rep):
+    """shared by C08 and C12: what a rule's action hands to the task it creates must reach the task."""
+    r = rep.rule("R-TASK-CTOR-PARAMS", "every task class the build system creates stores (or uses) each constructor parameter it is given: the path, the filters, the "
+                                       "node or the command a rule's action passes in is what the task works on — a parameter the constructor ignores leaves the "
+                                       "member default-initialised (an empty filter list, an empty path)", floor=10)
+    n = 0
+    for f in sorted(prog.functions.values(), key=lambda g: (g.file, g.line)):
+        if f.is_lambda or not f.raw.get("ctor") or relpath(f.file) != "lib/BuildSystem/BuildSystem.cpp" or not (f.cls or "").endswith("Task"):
+            continue
+        for p_ in f.params:
+            if not p_.get("n"):
+                continue
+            n += 1
+            used = any(x.get("k") == "ref" and x.get("did") == p_["did"] for x in f.nodes)
+            r.check(used, "%s(...)|%s" % ((f.cls or "").split("::")[-1], p_["n"]), "", "constructor parameter `%s` of %s is neither stored nor used: the member it was meant for keeps "
+                    "its default value" % (p_["n"], (f.cls or "").split("::")[-1]), f)
+    if n < 10:
+        raise AnalysisBroken("R-TASK-CTOR-PARAMS: only %d named constructor parameters of task classes found" % n)
+
+
 def run(ctx):
     prog, rep = ctx.prog, ctx.report
     r_buildfile_keys(prog, rep)
     r_validity_bodies(prog, rep)
     r_callbacks_reusable(prog, rep)
+    r_task_ctor_params(prog, rep)
     from rules import C09
     C09.r_sig_fold_all(prog, rep)
     from rules import inputids
     inputids.run_rule(prog, rep)
     from rules import C11
     C11.r_deps_unescaped(prog, rep, min_actions=2)
+    from sa.report import run_subset
+    run_subset(C11, ctx, {"R-DEPS-ERRORS-FAIL", "R-DEPS-ALL-STYLES"})    # every dependency file is processed, a failed parse fails the command
 
     r = rep.rule("R-LOOKUP-EXHAUSTIVE", "lookupRule handles every key kind; each rule pairs its task class with that class's own validity predicate and the "
                                         "signature of the command/node it stands for", floor=20)
@@ -413,4 +437,6 @@ VARIANTS = [
          expect=("R-CALLBACKS-REUSABLE", "callback")),
     dict(name="benign-move-of-capture-into-a-view-parameter", file="lib/BuildSystem/BuildSystem.cpp", old="        return new DirectoryTreeSignatureTask(path, StringList(decoder));",
          new="        return new DirectoryTreeSignatureTask(std::move(path), StringList(decoder));", expect=None),
+    dict(name="structure-signature-task-ignores-its-filters", file="lib/BuildSystem/BuildSystem.cpp", old="  DirectoryTreeStructureSignatureTask(StringRef path, StringList&& filters) : path(path), filters(std::move(filters)) {}",
+         new="  DirectoryTreeStructureSignatureTask(StringRef path, StringList&& filters)\n      : path(path) {}", expect=("R-TASK-CTOR-PARAMS", "DirectoryTreeStructureSignatureTask")),
 ]
